@@ -174,6 +174,7 @@ func (search *Search) alphaBeta(aPosGen *Generator, targetDepth, depth, alpha, b
 			updateBestLine(currBestLine, bestSubline, move.mov)
 			alpha = currScore
 		}
+		verifSync(6, targetDepth*1000+aPosGen.firstMoveIdx, depth)
 		if search.interrupted || time.Now().After(endTime) {
 			break
 		}
